@@ -6,11 +6,15 @@ import (
 	"bytes"
 	"encoding/json"
 	"fmt"
+	"go/ast"
+	"go/parser"
+	"go/token"
 	"math/rand/v2"
 	"net/http"
 	"net/http/httptest"
 	"os"
 	"path/filepath"
+	"sort"
 	"strconv"
 	"strings"
 	"sync"
@@ -224,6 +228,9 @@ func c09Run(f []string) []string {
 	op := f[0]
 	if op == "C09.conc" {
 		return c09Conc(f)
+	}
+	if op == "C09.locks" {
+		return c09LockFacts()
 	}
 	if op == "C09.reset" {
 		c09Drop()
@@ -487,6 +494,7 @@ func c09GenResult(r *rand.Rand) int {
 
 func c09Gen(r *rand.Rand, emit vutil.Emit) {
 	n := vutil.N(2000)
+	emit("C09.locks")
 	for b := 0; b < n; b++ {
 		base, inDom := c09GenBase(r)
 		limMs := c09GenLimit(r)
@@ -577,3 +585,124 @@ func c09GenConc(r *rand.Rand, emit vutil.Emit) {
 }
 
 func TestVerifC09Conc(t *testing.T) { vutil.Main(t, c09GenConc, c09Run) }
+
+// ---- lock facts (the atomicity the model assumes) ----
+
+// c09MuCall recognises `s.<mu>.<method>()` and returns "<mu>.<method>".
+func c09MuCall(e ast.Expr) string {
+	call, ok := e.(*ast.CallExpr)
+	if !ok || len(call.Args) != 0 {
+		return ""
+	}
+	sel, ok := call.Fun.(*ast.SelectorExpr)
+	if !ok {
+		return ""
+	}
+	inner, ok := sel.X.(*ast.SelectorExpr)
+	if !ok {
+		return ""
+	}
+	if id, isID := inner.X.(*ast.Ident); !isID || id.Name != "s" {
+		return ""
+	}
+	switch inner.Sel.Name {
+	case "confMu", "currMu":
+		return inner.Sel.Name + "." + sel.Sel.Name
+	}
+
+	return ""
+}
+
+var c09Watched = map[string]bool{
+	"add": true, "getData": true, "flushDB": true, "loadUnits": true, "serialize": true,
+	"deserialize": true, "clear": true, "setLimit": true, "dataFromUnits": true,
+}
+
+// c09WalkStmts records, for every watched call and every assignment to s.curr,
+// which locks were taken (Lock immediately followed by the deferred Unlock) in
+// the enclosing statement lists before it.
+func c09WalkStmts(fn string, stmts []ast.Stmt, held []string, out *[]string) {
+	for i := 0; i < len(stmts); i++ {
+		st := stmts[i]
+		if es, ok := st.(*ast.ExprStmt); ok {
+			if lk := c09MuCall(es.X); strings.HasSuffix(lk, ".Lock") || strings.HasSuffix(lk, ".RLock") {
+				if i+1 < len(stmts) {
+					if ds, isDefer := stmts[i+1].(*ast.DeferStmt); isDefer {
+						want := strings.Replace(strings.Replace(lk, ".RLock", ".RUnlock", 1), ".Lock", ".Unlock", 1)
+						if c09MuCall(ds.Call) == want {
+							held = append(append([]string{}, held...), lk)
+							i++
+
+							continue
+						}
+					}
+				}
+				*out = append(*out, "unpaired:"+lk+"@"+fn)
+
+				continue
+			}
+		}
+		ast.Inspect(st, func(n ast.Node) bool {
+			switch x := n.(type) {
+			case *ast.BlockStmt:
+				c09WalkStmts(fn, x.List, held, out)
+
+				return false
+			case *ast.AssignStmt:
+				for _, lhs := range x.Lhs {
+					if sel, ok := lhs.(*ast.SelectorExpr); ok && sel.Sel.Name == "curr" {
+						if id, isID := sel.X.(*ast.Ident); isID && id.Name == "s" {
+							*out = append(*out, "set:curr@"+fn+":"+c09Held(held))
+						}
+					}
+				}
+			case *ast.CallExpr:
+				if sel, ok := x.Fun.(*ast.SelectorExpr); ok && c09Watched[sel.Sel.Name] {
+					*out = append(*out, "call:"+sel.Sel.Name+"@"+fn+":"+c09Held(held))
+				}
+			}
+
+			return true
+		})
+	}
+}
+
+func c09Held(held []string) string {
+	if len(held) == 0 {
+		return "none"
+	}
+	h := append([]string{}, held...)
+	sort.Strings(h)
+
+	return strings.Join(h, "+")
+}
+
+// c09LockFacts parses the package sources of the tree under test (the test
+// binary runs in internal/stats) and lists the lock facts, sorted.
+func c09LockFacts() []string {
+	fset := token.NewFileSet()
+	var out []string
+	for _, name := range []string{"stats.go", "unit.go", "http.go"} {
+		file, err := parser.ParseFile(fset, name, nil, 0)
+		if err != nil {
+			return []string{"parse-error:" + vutil.Hex(err.Error())}
+		}
+		for _, d := range file.Decls {
+			fd, ok := d.(*ast.FuncDecl)
+			if !ok || fd.Body == nil {
+				continue
+			}
+			c09WalkStmts(fd.Name.Name, fd.Body.List, nil, &out)
+		}
+	}
+	sort.Strings(out)
+	// collapse duplicates
+	res := out[:0]
+	for i, x := range out {
+		if i == 0 || x != out[i-1] {
+			res = append(res, x)
+		}
+	}
+
+	return append([]string{strconv.Itoa(len(res))}, res...)
+}
